@@ -27,6 +27,8 @@ import FV.Model.Receivers3
 import FV.Proofs.Receivers3
 import FV.Model.Receivers4
 import FV.Proofs.Receivers4
+import FV.Model.Receivers5
+import FV.Proofs.Receivers5
 import FV.Generated.Locks
 
 namespace FV.C05
@@ -381,5 +383,76 @@ critical section ONE step of the model and rules out the self-deadlocks (a secon
 writer, SendError under SendReply's lock) and leaked locks that would wedge every later request. -/
 theorem c05_lock_discipline :
     FV.Locks.ok [1, 2, 3, 5, 6, 7] FV.Generated.Locks.mutexTags FV.Generated.Locks.facts = true := by decide +kernel
+
+end FV.C05
+
+/-! ## Fifth part — the SIZE of echoed header values: the reply step of a server worker, model `FV.Model.Receivers5`.
+A peer can size `_cid` / `_opid` so that the request fits the transport while the response headers alone
+pass the server's output limit. -/
+namespace FV.C05
+open FV FV.Recv5
+
+/-- The worker's reply step ends after at most TWO write attempts (the reply, and one RESPONSE_TOO_LARGE
+exception), whatever the sizes of the header block and of every other write and whatever the limit:
+`sendError` ignores the results of its writes and so never re-enters `trapError`. (`replyStep` is a
+composition of two folds over finite lists: its totality is Lean's termination check.) -/
+theorem c05_reply_step_at_most_two_attempts (limit : Nat) (sc : Scenario) (primary fallback : List (List Nat)) :
+    (replyStep limit sc primary fallback).attempts ≤ 2 := by
+  unfold replyStep
+  cases sc <;> dsimp only
+  · split <;> simp
+  · simp
+  · split <;> simp
+
+/-- Whatever was received, what the worker publishes fits the output limit. -/
+theorem c05_reply_step_within_limit (limit : Nat) (hl : 4 ≤ limit) (sc : Scenario) (primary fallback : List (List Nat))
+    (n : Nat) (h : published (replyStep limit sc primary fallback) = some n) : n ≤ limit := by
+  have hlen : (replyStep limit sc primary fallback).len ≤ limit := by
+    unfold replyStep
+    cases sc <;> dsimp only
+    · split
+      · rename_i m hm; exact checked_le limit (by omega) primary.flatten 4 m hl hm
+      · exact unchecked_le limit hl fallback 4 hl
+    · exact unchecked_le limit hl primary 4 hl
+    · split
+      · rename_i m hm; exact checked_le limit (by omega) primary.flatten 4 m hl hm
+      · exact hl
+  unfold published at h
+  split at h
+  · cases h
+  · cases h; exact hlen
+
+/-- The code as it is, stated: when the response header block alone passes the limit (`h + 4 > limit`), a
+valid call is answered by the RESPONSE_TOO_LARGE exception WITHOUT its header block (that write fails too and
+is ignored), and an unknown method by nothing at all (the error goes to the worker's log). The peer cannot
+correlate either; the server has rejected the request with an error and goes on. -/
+theorem c05_reply_step_header_overflow (limit h : Nat) (rest exc : List (List Nat)) (hl : limit > 0) (ho : h + 4 > limit) :
+    replyStep limit .reply ([h] :: rest) ([h] :: exc) = ⟨2, unchecked limit 4 exc, false⟩ ∧
+    published (replyStep limit .unknown ([h] :: rest) []) = none := by
+  have hfl : ([h] :: rest).flatten = h :: rest.flatten := by simp
+  constructor
+  · unfold replyStep
+    dsimp only
+    rw [hfl, checked_head_overflow limit h _ hl ho, unchecked_head_overflow limit h exc hl ho]
+  · unfold replyStep
+    dsimp only
+    rw [hfl, checked_head_overflow limit h _ hl ho]
+    simp [published]
+
+/-- Why the structure matters: a `sendError` that handed its failed writes back to `trapError` (NOT the code)
+would, for exactly those requests, never finish — no amount of fuel lets it return. -/
+theorem c05_recursive_sendError_would_diverge (limit h : Nat) (exc : List Nat) (hl : limit > 0) (ho : h + 4 > limit) :
+    ∀ fuel, sendErrorRec limit (h :: exc) fuel = none :=
+  sendErrorRec_diverges limit (h :: exc) (checked_head_overflow limit h exc hl ho)
+
+/-- The reply step keeps no state: what is published for a request is a function of that request alone. -/
+theorem c05_reply_step_stateless (limit : Nat) (before : List (Scenario × List (List Nat) × List (List Nat))) (sc : Scenario) (p f : List (List Nat)) :
+    (before.map (fun x => replyStep limit x.1 x.2.1 x.2.2), replyStep limit sc p f).2 = replyStep limit sc p f := rfl
+
+example : replyStep 1048576 .reply [[1048575], [4, 8]] [[1048575], [4, 30]] = ⟨2, 38, false⟩ := by decide
+example : published (replyStep 1048576 .reply [[40], [4, 8]] [[40], [4, 30]]) = some 56 := by decide
+/-- a protocol call stops at its first failed write: the 30 bytes behind the failed 4 are not written -/
+example : replyStep 1048576 .error [[1048570], [4, 30], [7]] [] = ⟨1, 11, false⟩ := by decide
+example : httpReply 64 .reply [[100], [4, 8]] [] = (413, none) := by decide
 
 end FV.C05
